@@ -1,0 +1,27 @@
+//go:build verif
+
+// Contracts for the verification machinery in /verif (govc). Comment-only file.
+
+package request
+
+// ---- authentication ghost state -------------------------------------------------------
+// validsig(sig, method, id, nonce): the signature verifies for (method, id, nonce, args) under the
+// key named by id. The auth* variables record the arguments of the most recent successful
+// request.Verify call of the current request: they are *defined* by Verify's contract.
+//
+//@ ghost var authOK bool
+//@ ghost var authMethod string
+//@ ghost var authID string
+//@ ghost var authNonce int
+//@ ghost var authArgs []interface{}
+// nonceOK/nonceID/nonceVal: the most recent nonce accepted by the nonce store for the current request
+//@ ghost var nonceOK bool
+//@ ghost var nonceID string
+//@ ghost var nonceVal int
+
+//@ func Verify
+//@ property C04 C15
+//@ defines [auth-ok]   err == nil ==> authOK && authMethod == method && authID == pubkey && authNonce == nonce && authArgs == args
+//@ defines [auth-fail] err != nil ==> authOK == old(authOK) && authMethod == old(authMethod) && authID == old(authID) && authNonce == old(authNonce) && authArgs == old(authArgs)
+//@ ensures [errkind]   !typeis(err, pool.VerifyFailedError) && !typeis(err, balance.LowBalanceError)
+//@ modifies authOK, authMethod, authID, authNonce, authArgs
